@@ -24,6 +24,24 @@ package event
 //@   pureeffect
 //@   requires [alphabet_account_is_compared_with_the_second_signer] self == s[1].Account
 //@   defines result == alphabetAccountMatches()
+// The Alphabet account: the (2n/3+1)-of-n multi-signature account of the current Alphabet keys
+// - not a simple majority, which is a different account for every committee size but 1, 2
+// and 4 - is what the second signer is compared with and what the second witness must carry.
+//@ callrule c34_alphabet_account_threshold in (preparator).validateCosigners, (preparator).validateWitnesses
+//@   property C34
+//@   callee smartcontract.CreateMultiSigRedeemScript
+//@   pureeffect
+//@   requires [two_thirds_plus_one_of_the_current_alphabet_keys] a0 == len(alphaKeys) * 2 / 3 + 1 && samearray(a1, alphaKeys) && sliceoff(a1, alphaKeys) == 0 && len(a1) == len(alphaKeys)
+//@ callrule c34_alphabet_account_is_that_script in (preparator).validateCosigners
+//@   property C34
+//@   callee hash.Hash160
+//@   pureeffect
+//@   requires [account_of_the_alphabet_multisignature_script] resultOf(a0, "smartcontract.CreateMultiSigRedeemScript")
+//@ callrule c34_alphabet_witness_is_that_script in (preparator).validateWitnesses
+//@   property C34
+//@   callee bytes.Equal
+//@   requires [witness_scripts_compared_with_the_alphabet_script_or_the_dummy_only] resultOf(a1, "smartcontract.CreateMultiSigRedeemScript") || samearray(a1, p.dummyInvocationScript)
+//@   requires [alphabet_script_compared_with_the_second_witness] resultOf(a1, "smartcontract.CreateMultiSigRedeemScript") ==> samearray(a0, w[1].VerificationScript) && sliceoff(a0, w[1].VerificationScript) == 0 && len(a0) == len(w[1].VerificationScript)
 //@ callrule c34_cosigner_check_collaborators in (preparator).validateCosigners
 //@   property C34
 //@   callee smartcontract.CreateMultiSigRedeemScript, fmt.Errorf, hash.Hash160
